@@ -126,12 +126,14 @@ class eval_abs(object):
         return cpt
 
     def my_bsf(self, a, default_val=0):
+        a = int(a)
         for i in range(32):
             if a & (1<<i):
                 return i
         return default_val
 
     def my_bsr(self, a, op_size, default_val = 0):
+        a = int(a)
         for i in range(op_size-1, -1, -1):
             if a & (1<<i):
                 return i
